@@ -526,7 +526,7 @@ func ruleReleaseMatchesTake(c *Ctx, rule string) {
 			key := fmt.Sprintf("%s:release#%d:names-what-was-taken", fnName(fn), k)
 			args := ci.Common().Args
 			same := func(a, b ssa.Value) bool {
-				a, b = strip(a), strip(b)
+				a, b = normCaptured(strip(a)), normCaptured(strip(b))
 				if a == b {
 					return true
 				}
@@ -765,4 +765,68 @@ func ruleBulkElementKeysDocumented(c *Ctx, rule string) {
 	if len(documented) == 0 {
 		c.undecided(rule, "floor:documented-keys", token.NoPos, "no property found under V2BaseBulkElement")
 	}
+}
+
+// normCaptured: a variable captured by a function literal, or a local that is captured, seen as the value it holds:
+// the free variable (or a load of the captured cell) becomes the single value stored into the cell by the enclosing
+// function.
+func normCaptured(v ssa.Value) ssa.Value {
+	for i := 0; i < 4; i++ {
+		switch x := v.(type) {
+		case *ssa.UnOp:
+			if x.Op != token.MUL {
+				return v
+			}
+			switch cell := x.X.(type) {
+			case *ssa.Alloc:
+				if sv := singleStore(cell); sv != nil {
+					v = strip(sv)
+					continue
+				}
+			case *ssa.FreeVar:
+				if b := freeVarBinding(cell); b != nil {
+					if al, ok := b.(*ssa.Alloc); ok {
+						if sv := singleStore(al); sv != nil {
+							v = strip(sv)
+							continue
+						}
+					}
+				}
+			}
+			return v
+		case *ssa.FreeVar:
+			if b := freeVarBinding(x); b != nil {
+				v = strip(b)
+				continue
+			}
+			return v
+		default:
+			return v
+		}
+	}
+	return v
+}
+
+func freeVarBinding(fv *ssa.FreeVar) ssa.Value {
+	fn := fv.Parent()
+	if fn == nil || fn.Parent() == nil {
+		return nil
+	}
+	idx := -1
+	for i, f := range fn.FreeVars {
+		if f == fv {
+			idx = i
+		}
+	}
+	if idx < 0 {
+		return nil
+	}
+	for _, b := range fn.Parent().Blocks {
+		for _, ins := range b.Instrs {
+			if mc, ok := ins.(*ssa.MakeClosure); ok && mc.Fn == ssa.Value(fn) && idx < len(mc.Bindings) {
+				return mc.Bindings[idx]
+			}
+		}
+	}
+	return nil
 }
